@@ -112,6 +112,8 @@ class Raised(Exception):
 
 
 class State:
+    access_log = None     # callable(kind, bufid, pos, state) while a prange body is executed (race analysis), else None
+
     def __init__(self):
         self.env = {}
         self.heap = {}
@@ -126,8 +128,10 @@ class State:
         self.yields = []      # list of (guard, value)
         self.owned = set()
 
-    def wbuf(self, bid):
-        """Writable cell list of a buffer (copy-on-write after a fork)."""
+    def wbuf(self, bid, pos=None):
+        """Writable cell list of a buffer (copy-on-write after a fork). `pos` feeds the access log of parallel loops."""
+        if State.access_log is not None and pos is not None:
+            State.access_log("w", bid, pos, self)
         if bid not in self.owned:
             self.heap[bid] = list(self.heap[bid])
             self.owned.add(bid)
@@ -184,6 +188,8 @@ class Interp:
         self.assume_casts_in_range = False
         self.cast_assumptions = []
         self.accum_log = set()
+        self.par_log = []      # one record per executed prange loop (see _prange)
+        self.prange_order = "forward"
         self.lib_overrides = {}
         self._cur = None
         from . import lib
@@ -387,9 +393,14 @@ class Interp:
         if isinstance(a, CArr):
             raise Unsupported("cells of compacted array")
         buf = st.heap[a.bufid]
+        if State.access_log is not None:
+            for p in a.positions():
+                State.access_log("r", a.bufid, p, st)
         return [buf[p] for p in a.positions()]
 
     def read_cell(self, st, a, pos):
+        if State.access_log is not None:
+            State.access_log("r", a.bufid, pos, st)
         v = st.heap[a.bufid][pos]
         if isinstance(v, Partial):
             self.oblige(st, "uninit-read", v.defined, f"read of {v.what}")
@@ -490,7 +501,7 @@ class Interp:
             self.oblige(st, "readonly-write", False, "write to an input buffer declared read-only")
         if cast:
             v = self.cast_store(st, a.dtype, v)
-        st.wbuf(a.bufid)[pos] = v
+        st.wbuf(a.bufid, pos)[pos] = v
 
     # ------------------------------------------------------------ merging
     def merge(self, c, st_t, st_f):
@@ -996,7 +1007,7 @@ class Interp:
                 old = st.heap[bid][pos]
                 a = rt[key][0] if key in rt else old
                 b = rf[key][0] if key in rf else old
-                st.wbuf(bid)[pos] = a if same(a, b) else self.ite_any(c, a, b)
+                st.wbuf(bid, pos)[pos] = a if same(a, b) else self.ite_any(c, a, b)
         return True
 
     def st_While(self, st, s):
@@ -1005,8 +1016,50 @@ class Interp:
 
     def st_For(self, st, s):
         itv = self.eval(st, s.iter)
+        if type(itv).__name__ == "PRange":
+            return self._prange(st, s, itv.inner)
         items = self.loop_items(st, itv)
         self._loop(st, s, None, items)
+
+    def _prange(self, st, s, rng):
+        """numba.prange: iterations are executed one after the other in `self.prange_order` ("forward" / "reverse"); every access to a
+        buffer that exists before the loop is logged per iteration (self.par_log), names assigned in the body are private to
+        an iteration (deleted / restored at its start), names defined before the loop and re-assigned inside are reported as
+        carried (a reduction or a race in Numba's semantics; the harness decides)."""
+        marker = new_bufid()
+        assigned = set()
+        for node in s.body:
+            for sub in ast.walk(node):
+                if isinstance(sub, ast.Name) and isinstance(sub.ctx, ast.Store):
+                    assigned.add(sub.id)
+        pre = {n: st.env[n] for n in assigned if n in st.env}
+        rec = {"loop": f"{self.where}", "marker": marker, "iters": [], "accesses": {}, "carried": sorted(pre)}
+        self.par_log.append(rec)
+        order = list(rng)
+        if getattr(self, "prange_order", "forward") == "reverse":
+            order = order[::-1]
+        saved_hook = State.access_log
+        for k in order:
+            for n in assigned:
+                if n in pre:
+                    st.env[n] = pre[n]
+                else:
+                    st.env[n] = Partial(0, False, f"{n} (private to one prange iteration)")
+            rec["iters"].append(k)
+
+            def hook(kind, bid, pos, state, k=k):
+                if bid >= marker:
+                    return
+                g = z_and(*state.pc) if state.pc else True
+                rec["accesses"].setdefault((bid, pos), []).append((kind, k, g))
+            State.access_log = hook
+            try:
+                self._iteration(st, s, lambda k=k: k)
+            finally:
+                State.access_log = saved_hook
+            if z_or(st.brk, st.ret) is not False:
+                raise Unsupported("break / return inside a prange loop")
+        rec["private_names"] = sorted(assigned - set(pre))
 
     def loop_items(self, st, itv):
         """-> list of (guard_or_True, value_thunk)."""
